@@ -123,6 +123,8 @@ ALPHA = [
     dict(category='positive', correct=True, valence=1),
     dict(category='instructions', kind='Instructional', valence=0),
     dict(category='runtime', message=''),
+    dict(category='mistakes', fields={'x': 1, 'y': 2}, label='L'),
+    dict(category='mistakes', fields={'x': 2, 'y': 2}, label='L'),
     dict(via='CF', name='totl'),
     dict(via='CF', name='cnt'),
 ]
@@ -137,6 +139,8 @@ SUP_FORMS = [
     (None, 'L', {'x': 2}),
     (None, 'L', {'x': 1}),
     (None, 'L', {'name': 'totl'}),
+    ('mistakes', 'L', {'x': 1, 'y': 2}),
+    (None, 'L', {'y': 2, 'x': 1}),
     ('mistakes', 'L', {'name': 'cnt'}),
     (None, 'absent', None),
     ('parser', True, None),
